@@ -292,7 +292,8 @@ def run_unit(unit, rng, ctx):
                     nf_ = int(rng.integers(1, 5))
                     Pn = np.concatenate([live.P[-1:], live.P[-1:] + np.cumsum(rng.uniform(-0.1, 0.1, size=(nf_ - 1, live.P.shape[1], 3)), axis=0)]) if nf_ > 1 else live.P[-1:].copy()
                     Pn = Pn - np.floor(Pn)
-                    other = Live(gen.make_trajectory(m, list(o.species), Pn + rng.integers(-1, 2, size=(1, Pn.shape[1], 3)), time_step=dt, metadata=dict(live.meta)), wrap01(Pn), live.names, m, dt, live.meta, f'restart chunk of {nf_} frames')
+                    other_meta = dict(live.meta) if rng.integers(2) else {'temperature': 9999.0, 'aux': 'restart'}  # the appended run may carry other metadata; the trajectory it is appended to keeps its own
+                    other = Live(gen.make_trajectory(m, list(o.species), Pn + rng.integers(-1, 2, size=(1, Pn.shape[1], 3)), time_step=dt, metadata=other_meta), wrap01(Pn), live.names, m, dt, other_meta, f'restart chunk of {nf_} frames')
                     ctx.count('extend_with_a_chunk_repeating_the_last_frame')
                 requery = bool(rng.integers(2))
                 if requery:
